@@ -26,6 +26,9 @@ func (w *c04RW) LocalAddr() net.Addr  { return &net.UDPAddr{IP: net.IPv4(127, 0,
 func (w *c04RW) RemoteAddr() net.Addr { return &net.UDPAddr{IP: net.IPv4(10, 1, 2, 3), Port: 4000} }
 func (w *c04RW) WriteMsg(_ context.Context, _, resp *dns.Msg) error {
 	w.msg = resp.Copy()
+	// A written response belongs to the writer: the real ones edit it in place
+	// (OPT, padding, truncation) and hand its parts to the message pools.
+	c04Scribble(resp)
 	return nil
 }
 
